@@ -70,6 +70,12 @@ SETUPS = {
     "m8x2-shared": ["a reserve h0 0 m8", "a slice h0 0 16", "a clone h1 h0"],
     "m4-full-shared": ["a reserve h0 64 m4", "a slice h0 0 64", "a clone h1 h0"],
     "m4x3-two": ["a reserve h0 0 m4", "a slice h0 0 12", "a reserve h1 0 m4", "a slice h1 0 8"],
+    # immutable / no-copy buffers whose owner constructed the elements in place; a long run of elements (the scratch
+    # copy of replaced elements leaves the stack buffer of mpt_buffer_set)
+    "imm-m4x3": ["a alloc h0 0 1 m4 el:3"],
+    "imm-m4x3-shared": ["a alloc h0 0 1 m4 el:3", "a clone h1 h0"],
+    "nocopy-m4x3-shared": ["a alloc h0 0 2 m4 el:3", "a clone h1 h0"],
+    "m4x64": ["a alloc h0 0 0 m4 el:64", "a insert h0 u zero:40"],
 }
 ORACLES = ["-", "1", "01", "001", "11", "101", "0001", "011"]
 
@@ -80,7 +86,8 @@ def pool(h, o, level):
                 "a clone %s %s" % (h, o), "a drop %s" % h, "a detach %s 4" % h, "a insert %s 4 zero:4" % h]
     ops = []
     offs = ["0", "1", "3", "5", "-1", "-9"] if level == 2 else ["0", "1", "3", "5", "-1"]
-    for tr, d in (("m4", "zero:4"), ("m4", "zero:8"), ("m4", "el:1"), ("m4", "el:2"), ("n4", "el:1"), ("m8", "zero:8"), ("m8", "el:1")):
+    for tr, d in (("m4", "zero:4"), ("m4", "zero:8"), ("m4", "el:1"), ("m4", "el:2"), ("n4", "el:1"), ("m8", "zero:8"), ("m8", "el:1"),
+                  ("m4", "el:64"), ("m4", "zero:272")):
         for off in (offs if tr == "m4" or level == 2 else ["0", "1"]):
             ops.append("a set %s %s %s %s" % (h, tr, off, d))
     for p in (["0", "4", "u", "u+4", "2", "8"] if level == 2 else ["0", "4", "u", "u+4"]):
@@ -93,7 +100,7 @@ def pool(h, o, level):
         for ln in ["0", "4", "8"]:
             ops.append("a slice %s %s %s" % (h, off, ln))
     for n in ["0", "4", "u", "s+4"]:
-        for tr in (["m4", "n4", "m8", "-", "p4"] if level == 2 else ["m4", "n4", "-"]):
+        for tr in (["m4", "n4", "m8", "q8", "-", "p4"] if level == 2 else ["m4", "n4", "q8", "-"]):
             ops.append("a reserve %s %s %s" % (h, n, tr))
     for n in ["0", "4", "u", "s+4"]:
         ops.append("a detach %s %s" % (h, n))
@@ -143,7 +150,7 @@ def random_scripts(tier, seed, scale):
             elif kind == "slice":
                 lines.append("a slice %s %s %s" % (h, pos(), r.choice(["0", "4", "8", "16", "s"])))
             elif kind == "reserve":
-                lines.append("a reserve %s %s %s" % (h, pos(), r.choice(["m4", "m4", "n4", "m8", "-", "p4"])))
+                lines.append("a reserve %s %s %s" % (h, pos(), r.choice(["m4", "m4", "n4", "m8", "q8", "-", "p4"])))
             elif kind == "detach":
                 lines.append("a detach %s %s" % (h, pos()))
             elif kind == "reduce":
@@ -191,7 +198,7 @@ def scripts(tier, seed, scale=1):
     full, red, small = both(2), both(1), both(0)
     out += nocopy_scripts(tier)
     for sn, setup in SETUPS.items():
-        for orc in ORACLES:
+        for orc in (ORACLES[:3] if tier == "quick" and (sn.startswith(("imm-", "nocopy-")) or sn == "m4x64") else ORACLES):
             for op in full:
                 out.append(("ex1:%s:%s:%s" % (sn, orc, op), _script(setup, orc, [op])))
     pair_setups = ["m4x3", "m4x3-shared", "m8x2-shared", "m4x3-two"]
